@@ -44,7 +44,68 @@ def _is_self_attr(node: ast.AST) -> Optional[str]:
     return last_attr
 
 
+def long_lived_instances(model: SrcModel) -> Set[str]:
+    """Classes of which an instance is created by a module-level or class-level assignment (a singleton that lives as
+    long as the process), including their base classes (the methods that run on that instance)."""
+    cached = getattr(model, "_long_lived_instances", None)
+    if cached is not None:
+        return cached
+    out: Set[str] = set()
+    sites: List[Tuple[object, ast.expr]] = []
+    for mod in model.modules.values():
+        for name, sts in mod.assigns.items():
+            for st in sts:
+                if getattr(st, "value", None) is not None:
+                    sites.append((mod, st.value))
+    for cls in model.classes.values():
+        for _name, val in cls.assigns.items():
+            if val is not None:
+                sites.append((cls.module, val))
+    for mod, val in sites:
+        for n in ast.walk(val):
+            if isinstance(n, ast.Lambda):
+                continue
+            if isinstance(n, ast.Call) and isinstance(n.func, (ast.Name, ast.Attribute)):
+                res = model.resolve_expr(mod, n.func)
+                if isinstance(res, ClassDef):
+                    out.update(c for c in model.mro(res.qualname) if c in model.classes)
+    model._long_lived_instances = out  # type: ignore[attr-defined]
+    return out
+
+
+def holds_mutable_objects(model: SrcModel, mod, v: Optional[ast.AST]) -> bool:
+    """Does the expression build lark Trees / model objects / nested containers (something a caller could edit in place)?"""
+    if v is None:
+        return False
+    for x in ast.walk(v):
+        if isinstance(x, ast.Call) and isinstance(x.func, (ast.Name, ast.Attribute)):
+            res = model.resolve_expr(mod, x.func)
+            last = (dotted(x.func) or "").split(".")[-1]
+            if isinstance(res, FuncDef) or not last[:1].isupper():
+                continue
+            if last in ("MappingProxyType", "Final", "frozenset", "Token"):
+                continue
+            if isinstance(res, ClassDef) and (model.is_enum(res) or "typing.NamedTuple" in model.mro(res.qualname)
+                                               or any("frozen=True" in norm(d) for d in res.node.decorator_list)):
+                continue
+            return True
+    return False
+
+
+SERVICE_BASES = ("ahbicht.content_evaluation.evaluators.Evaluator", "ahbicht.expressions.hints_provider.HintsProvider",
+                 "ahbicht.expressions.package_expansion.PackageResolver", "ahbicht.content_evaluation.token_logic_provider.TokenLogicProvider")
+
+
+def is_service_class(model: SrcModel, cls: ClassDef) -> bool:
+    """Evaluators, providers, resolvers, token logic providers: one instance serves all (concurrent) evaluations."""
+    mro = model.mro(cls.qualname)
+    return any(b in mro for b in SERVICE_BASES) or cls.qualname in long_lived_instances(model) and not any(
+        "attrs.define" in norm(d) or "dataclass" in norm(d) for d in cls.node.decorator_list)
+
+
 def per_call(model: SrcModel, cls: ClassDef) -> bool:
+    if cls.qualname in long_lived_instances(model):
+        return False  # an instance is kept at module/class level: it is not dropped after one call
     mro = model.mro(cls.qualname)
     return any(b in mro for b in PER_CALL_BASES) or cls.qualname in PER_CALL_CLASSES or any(
         "attrs.define" in norm(d) or "dataclass" in norm(d) for d in cls.node.decorator_list) or \
@@ -153,6 +214,12 @@ def hidden_state_sites(model: SrcModel, fn: FuncDef) -> List[Tuple[str, ast.AST,
                         res = model.resolve_name(mod, root)
                         if isinstance(res, ClassDef):
                             out.append(("class-store", n, f"stores into class attribute {norm(tt, 80)}"))
+                    elif root is not None and root not in ("self", "cls") and isinstance(tt, ast.Attribute):
+                        # an attribute of an object this function did not create: a provider / evaluator / resolver handed in or looked up
+                        owner = tt.value
+                        ocls = model.value_class(fn, owner)
+                        if ocls is not None and is_service_class(model, ocls):
+                            out.append(("foreign-store", n, f"stores into '{norm(tt, 80)}', an attribute of a long-lived {ocls.name} object shared by all evaluations"))
         if isinstance(n, ast.Call) and isinstance(n.func, ast.Attribute) and n.func.attr in MUTATORS:
             root = _root_name(n.func.value)
             if is_module_var(root):
@@ -200,6 +267,22 @@ def hidden_state_sites(model: SrcModel, fn: FuncDef) -> List[Tuple[str, ast.AST,
                     for x in ast.walk(v))
                 if holds_objects:
                     out.append(("shared-return", n, f"returns an object stored in the module-level container '{root}' (one instance shared by all callers)"))
+        # an object stored in a class-level attribute (one per process) handed out to the caller
+        if fn.cls is not None and isinstance(n, ast.Return) and n.value is not None:
+            target = n.value
+            if isinstance(target, ast.Call) and isinstance(target.func, ast.Attribute) and target.func.attr == "get":
+                target = target.func.value
+            if isinstance(target, (ast.Subscript, ast.Attribute)) and _root_name(target) in ("self", "cls"):
+                attr = _is_self_attr(target)
+                ca = model.class_attr(fn.cls, attr) if attr else None
+                set_in_init = attr is not None and any(
+                    isinstance(t_, ast.Attribute) and t_.attr == attr and isinstance(t_.value, ast.Name) and t_.value.id == "self"
+                    for c_ in model.mro(fn.cls.qualname) if c_ in model.classes
+                    for m_ in model.classes[c_].methods.values() if m_.name in ("__init__", "__attrs_post_init__", "__post_init__")
+                    for st_ in ast.walk(m_.node) if isinstance(st_, (ast.Assign, ast.AnnAssign))
+                    for t_ in (st_.targets if isinstance(st_, ast.Assign) else [st_.target]))
+                if ca is not None and not set_in_init and holds_mutable_objects(model, fn.cls.module, ca):
+                    out.append(("shared-return", n, f"returns an object stored in the class-level attribute '{attr}' of {fn.cls.name} (one instance shared by all callers): {norm(n.value, 70)}"))
         if isinstance(n, ast.Return) and isinstance(n.value, ast.IfExp):
             for side in (n.value.body, n.value.orelse):
                 if isinstance(side, ast.Name) and is_module_var(side.id) and isinstance(mutables.get(side.id), (ast.Call, ast.Dict, ast.List)):
